@@ -23,11 +23,13 @@ RULE = ("a scenario is one history V0 -haplotag-> B, V0 -unphase-> U (optionally
         "samples, mate pairs, records with two ALT alleles and genotypes 1|2, 2|1, 0|2, 2|0); 'bxmol' scenarios are linked-read worlds (--linked-read-distance-cutoff 140): one barcode on several "
         "molecules that start farther apart than the cutoff and copy different haplotypes, the reads of a molecule start within "
         "half the cutoff; 'hazard' scenarios are worlds in which a kept (pre-phased) set has a site that no tagged "
-        "read covers. A scenario is non-trivial if the chain succeeded, a read was tagged and W phases >= 2 sites that U "
+        "read covers. Decorations of a chromosome (separate generator): its site 1 is an SNV on the first base of the contig (POS 1: a set "
+        "starting there is PS=1, component id 0 inside whatshap; reads covering it start at position 0), or its phase sets are "
+        "numbered 1, 2, 3 instead of by the position of their leftmost variant. A scenario is non-trivial if the chain succeeded, a read was tagged and W phases >= 2 sites that U "
         "did not")
 ASSUMPTIONS = [
     "reads are error-free copies of one haplotype of the sample's true allele pairs (alleles by construction), SNVs and unshiftable "
-    "indels >= 50 bp apart on a homopolymer-free reference, each touched variant covered with >= 12 bp on both sides",
+    "indels >= 50 bp apart on a homopolymer-free reference, each touched variant covered with >= 12 bp on both sides (except an SNV on the first base of a contig, which has no left flank)",
     "no read (no mate pair, no barcode molecule) covers phased sites of two phase sets; thresholds of haplotagphase at their defaults; diploid",
     "linked reads: the reads of one molecule copy one haplotype and start within half the linked-read cutoff, two molecules of one "
     "barcode start farther apart than the cutoff (well-separated clouds; chains of reads are not generated)",
@@ -302,6 +304,21 @@ def scenarios(ctx):
                 ch_["keep"] = []
     if not no_hazard:
         bundle(hazard if not q else hazard[:40], "hazard:prephased_uncovered", 8)
+    # numbering of the phase sets, drawn from a separate generator (the worlds above are the same as without the decoration):
+    # "first_base": site 1 of the chromosome is an SNV on the very first base of the contig (POS 1), so a set that starts there
+    # is PS=1 under the leftmost-variant convention (component id 0 inside whatshap); "psnum" = "index": the sets of the
+    # phased VCF are numbered 1, 2, 3 (any positive integer is a legal PS) instead of by the position of their leftmost variant
+    drng = random.Random(rng.randrange(1 << 30))
+    for sc_ in scs:
+        for ch_ in sc_["chroms"]:
+            x = drng.random()
+            if x < 0.3 and sc_["kind"] in ("gen", "rand"):
+                ch_["first_base"] = True
+                ch_["sites"][0]["kind"], ch_["sites"][0]["len"] = "snv", 1
+            elif x < 0.5 and not sc_["kind"].startswith("hazard"):
+                ch_["psnum"] = "index"
+    ctx.notes["ps_numbering"] = {"chromosomes_with_site_on_first_base": sum(1 for s_ in scs for c_ in s_["chroms"] if c_.get("first_base")),
+                                 "chromosomes_with_sets_numbered_1_2_3": sum(1 for s_ in scs for c_ in s_["chroms"] if c_.get("psnum"))}
     ctx.notes["scenario_kinds"] = {k: sum(1 for s in scs if s["kind"] == k) for k in sorted({s["kind"] for s in scs})}
     return scs
 
@@ -346,6 +363,20 @@ def _project_vcf(path, nsmp, site_index, intern):
     return out
 
 
+def _build_from_first_base(sc, rng, lay, a):
+    """an error-free read whose first site lies on the first base of the contig: the alignment starts at position 0"""
+    from wv import world as W
+    vs = lay["vars"]
+    alleles = [0] * len(vs)
+    for k, j in enumerate(range(a["lo"], a["hi"] + 1)):
+        alleles[j - 1] = a["al"][k]
+    hap = W.Haplotype(lay["ref"], vs, alleles)
+    re_ = vs[a["hi"] - 1].pos + len(vs[a["hi"] - 1].ref) + rng.randint(12, 20)
+    pos, cig, seq = hap.read(0, hap.ref_to_hap(re_))
+    assert pos == 0 and W.cigar_reflen(cig) == re_, (pos, cig, re_)
+    return {"pos": pos, "cigar": W.cigar_str(cig), "seq": seq, "qual": c10._qualstr(rng, len(seq), sc["mode"])}
+
+
 def drive(sc):
     import pysam
     from wv import world as W
@@ -360,6 +391,9 @@ def drive(sc):
         nsmp = sc["nsmp"]
         samples = [f"s{i + 1}" for i in range(nsmp)]
         chroms = c10._layout(sc, rng)
+        for ch, lay in zip(sc["chroms"], chroms):
+            if ch.get("first_base"):
+                lay["vars"][0] = W.make_variant(rng, lay["ref"], 0, "snv", 1)      # POS 1: the first base of the contig
         contigs = [(c["name"], c["len"]) for c in chroms]
         fasta = W.write_fasta(os.path.join(d, "ref.fa"), {c["name"]: c["ref"] for c in chroms})
         site_index = {}
@@ -369,7 +403,7 @@ def drive(sc):
             for s in range(nsmp):
                 for j, st in enumerate(ch["sites"]):
                     if st["mode"][s] == "phased":
-                        psval.setdefault((ci, s, st["set"][s]), lay["vars"][j].pos + 1)
+                        psval.setdefault((ci, s, st["set"][s]), st["set"][s] if ch.get("psnum") == "index" else lay["vars"][j].pos + 1)
             lay["alt2"] = []
             for j, (st, v) in enumerate(zip(ch["sites"], lay["vars"])):
                 site_index[(lay["name"], v.pos + 1)] = len(site_index)
@@ -397,7 +431,10 @@ def drive(sc):
                 vs = [W.Variant(v.pos, v.ref, lay["alt2"][j]) if (r["lo"] <= j + 1 <= r["hi"] and r["al"][j + 1 - r["lo"]] == 2) else v
                       for j, v in enumerate(lay["vars"])]
                 a = {"kind": "prim", "lo": r["lo"], "hi": r["hi"], "al": [1 if x else 0 for x in r["al"]], "third": [], "rev": r["rev"]}
-                rec, obs = c10._build_alignment(sc, rng, dict(lay, vars=vs), a, 0)
+                if ch.get("first_base") and r["lo"] == 1:
+                    rec = _build_from_first_base(sc, rng, dict(lay, vars=vs), a)
+                else:
+                    rec, obs = c10._build_alignment(sc, rng, dict(lay, vars=vs), a, 0)
                 xi = len(reads) + 1
                 flag = 16 if r["rev"] else 0
                 name = f"r{xi}"
@@ -564,6 +601,7 @@ MANIFEST = {
             "same worlds (TLC-emitted) and seeded larger ones are materialised as VCF + BAM + FASTA and driven through the real "
             "run_haplotag, run_unphase, run_haplotagphase; TLC judges the projected files (C17_Trace).",
     "note": "trusted: TLC, TagPhaseChain.tla, the materialiser shared with C10, pysam; partially phased inputs are made by copying "
-            "kept phase sets of V0 back into the output of whatshap unphase",
+            "kept phase sets of V0 back into the output of whatshap unphase; PS values are the 1-based position of the leftmost phased "
+            "variant of the set (including POS 1 -> PS=1) or the small integers 1, 2, 3",
     "technique": "TLA+ spec + TLC model checking of the command chain + TLC trace validation of real CLI histories on spec-enumerated worlds",
 }
